@@ -757,9 +757,9 @@ def retrieve_func(repo):
 def export_func(repo):
     """Export.hdf5 with module-level helpers inlined and walrus removed"""
     if getattr(repo, "_c07_export", None) is None:
-        repo._c07_export = dewalrus(inline_module_helpers(
+        repo._c07_export = ifexp_to_if(dewalrus(inline_module_helpers(
             repo, EXPORT, repo.func(EXPORT, "Export.hdf5"),
-            methods=True, imports=True, depth=3, keep=KEEP_EXPORT))
+            methods=True, imports=True, depth=3, keep=KEEP_EXPORT)))
     return repo._c07_export
 
 
@@ -778,6 +778,18 @@ def r73(ctx, repo):
     if not isinstance(lp.iter, ast.Name):
         raise AnalysisError("Export.hdf5: basin list is not a name")
     blist = lp.iter.id
+    # the loop may iterate a filtered copy of the list:
+    # kept = [b for b in basin_list if <condition on b>]
+    pre_keep = []
+    sel = single_assign(ex, blist)
+    if isinstance(sel, (ast.ListComp, ast.GeneratorExp)) and len(
+            sel.generators) == 1 and isinstance(
+            sel.generators[0].target, ast.Name) and is_name(
+            sel.elt, sel.generators[0].target.id) and isinstance(
+            sel.generators[0].iter, ast.Name):
+        g0 = sel.generators[0]
+        pre_keep = [(c, g0.target.id) for c in g0.ifs]
+        blist = g0.iter.id
     sb = find_calls(lp, attr="store_basin")[0]
     g = CFG(ex)
     # internal basins skipped
@@ -792,6 +804,21 @@ def r73(ctx, repo):
     heads = g.ids_of(lp)
     ok = edge_guarded(g, cfg_ids(g, sb), fact_guard(not_internal),
                       sources=heads)
+    for c, v in pre_keep:        # filtered before the loop
+        for typ, want in (("internal", False), ("file", True),
+                          ("remote", True)):
+            env = {f"{v}.get('basin_type')": typ,
+                   f"{v}['basin_type']": typ}
+            try:
+                kept = bool(Mini(env).ev(c))
+            except Unknown as u:
+                raise AnalysisError("Export.hdf5: cannot evaluate the "
+                                    f"selection of basins (`{u}`)")
+            if typ == "internal" and not kept:
+                ok = True
+            if want and not kept:
+                raise AnalysisError("Export.hdf5: the selection drops "
+                                    f"{typ} basins")
     ctx.ob("R7.3", ok, "internal basins are not written to the exported file"
            if ok else "internal basins are copied to the exported file "
            "although their data stays behind", node=sb,
@@ -952,8 +979,24 @@ def r73(ctx, repo):
     DS = expand_locals(ex, _expr(dsn))
     ROOT = expand_locals(ex, _expr(f"{dsn}.get_root_parent()"))
 
+    # names bound only by an assignment expression that could not be
+    # hoisted (e.g. in the second operand of `and`)
+    stores = {}
+    for n in walk(ex):
+        if isinstance(n, ast.Name) and isinstance(n.ctx, ast.Store):
+            stores[n.id] = stores.get(n.id, 0) + 1
+    wal = {n.target.id: n.value for n in walk(ex)
+           if isinstance(n, ast.NamedExpr) and stores.get(n.target.id) == 1}
+
     def X(e):
-        return expand_locals(ex, e)
+        class W(ast.NodeTransformer):
+            def visit_Name(self, node):
+                if isinstance(node.ctx, ast.Load) and node.id in wal:
+                    return ast.parse("(" + txt(wal[node.id]) + ")",
+                                     mode="eval").body
+                return node
+        e2 = W().visit(ast.parse(txt(e), mode="eval").body)
+        return expand_locals(ex, ast.parse(txt(e2), mode="eval").body)
 
     def is_root_map(v):
         while isinstance(v, ast.Name):
@@ -2322,6 +2365,25 @@ def _twin_local_aliases(src):
         "                out_arr[ii] = feat_obj[idx]\n")
 
 
+def _twin_assign_basinmap_method(src):
+    """the map-name allocation of store_basin moved into a step method
+    with an in-out parameter"""
+    a = src.index("        # determine the basinmap to use\n"
+                  "        if basin_map is not None:\n")
+    b = src.index("        b_data = {\n")
+    block = src[a:b]
+    body = block.split("\n", 1)[1]
+    src = src[:a] + (
+        "        basin_map_name = self._assign_basinmap_feature(\n"
+        "            basin_map=basin_map,\n"
+        "            basin_map_name=basin_map_name)\n\n") + src[b:]
+    return src.replace(
+        "    def store_feature(self, feat, data, shape=None):",
+        "    def _assign_basinmap_feature(self, basin_map, basin_map_name):\n"
+        + body.rstrip("\n") + "\n        return basin_map_name\n\n"
+        "    def store_feature(self, feat, data, shape=None):", 1)
+
+
 def _twin_fetch_events(src):
     """both gather loops moved into one helper with positional-only
     parameters and *args / **kwargs"""
@@ -2509,6 +2571,8 @@ TWINS = [
       "                own = self.ds.features_innate\n"
       "                nested = self.ds.features_basin\n"
       "                self._features = sorted(set(own) | set(nested))\n")),
+    ("map-name allocation in a step method of the writer", WRITER,
+     _twin_assign_basinmap_method),
     ("gather loops in a helper with positional-only parameters", FB,
      _twin_fetch_events),
     ("load_dataset with early return", FB,
